@@ -89,6 +89,22 @@ Theorem C02_initial_closure :
 Proof. exact resolve_initial_closure. Qed.
 Print Assumptions C02_initial_closure.
 
+(* ... and therefore, as an invariant: every leaf of every reachable configuration is a state
+   without an (existing) initial child - starting from the configuration add_model puts a model
+   in (which is closed), for every history, when no definition is deeper than the engine's bound. *)
+Theorem C02_closed_invariant :
+  forall (hm : hmachine) (f f' : forest),
+    wf_defs hm = true -> depth_ok hm -> reach hm f f' -> reg hm f -> closed hm f -> closed hm f'.
+Proof. exact reach_closed. Qed.
+Print Assumptions C02_closed_invariant.
+
+Theorem C02_initial_config_closed :
+  forall (hm : hmachine) (ini : path) (d : sdefn),
+    depth_ok hm -> find_def (hm_states hm) ini = Some d ->
+    closed hm (chain_tree ini (initial_tree def_depth_bound d)).
+Proof. exact initial_config_closed. Qed.
+Print Assumptions C02_initial_config_closed.
+
 (* non-vacuity: a transition between two regions' states in a parallel state *)
 Example C02_example :
   let d := SDef 5 [] [] [] false None [] [] [] in
